@@ -137,7 +137,67 @@ var (
 	reFnNotAllowed  = regexp.MustCompile(`^calling function "([^"]+)" is not allowed here`)
 )
 
+// c12FullSites: the container / service positions again, now with EVERY sibling key present (image, credentials, env,
+// ports, volumes, options), in two key orders (credentials first / last) — "sibling configurations"
+func c12FullSites() []c12Site {
+	type field struct {
+		name, contKey, svcKey string
+		render               func(ind, v string) string
+		benign               string
+	}
+	scalar := func(k string) func(ind, v string) string {
+		return func(ind, v string) string { return ind + k + ": " + v + "\n" }
+	}
+	seq := func(k string) func(ind, v string) string {
+		return func(ind, v string) string { return ind + k + ":\n" + ind + "  - " + v + "\n" }
+	}
+	fields := []field{
+		{"credentials.password", "jobs.<job_id>.container.credentials", "jobs.<job_id>.services.<service_id>.credentials", func(ind, v string) string {
+			return ind + "credentials:\n" + ind + "  username: u\n" + ind + "  password: " + v + "\n"
+		}, "p"},
+		{"image", "jobs.<job_id>.container.image", "jobs.<job_id>.services", scalar("image"), "x"},
+		{"env", "jobs.<job_id>.container.env.<env_id>", "jobs.<job_id>.services.<service_id>.env.<env_id>", func(ind, v string) string { return ind + "env:\n" + ind + "  A: " + v + "\n" }, "b"},
+		{"ports", "jobs.<job_id>.container", "jobs.<job_id>.services", seq("ports"), "80"},
+		{"volumes", "jobs.<job_id>.container", "jobs.<job_id>.services", seq("volumes"), "a:b"},
+		{"options", "jobs.<job_id>.container", "jobs.<job_id>.services", scalar("options"), "--cpus 1"},
+	}
+	var out []c12Site
+	for _, svc := range []bool{false, true} {
+		for _, credLast := range []bool{false, true} {
+			order := append([]field{}, fields...)
+			if credLast {
+				order = append(order[1:], order[0])
+			}
+			for pi := range order {
+				var body strings.Builder
+				ind := "      "
+				if svc {
+					ind = "        "
+				}
+				for fi, f := range order {
+					v := f.benign
+					if fi == pi {
+						v = "%s"
+					}
+					body.WriteString(f.render(ind, v))
+				}
+				key := order[pi].contKey
+				head := c12JobHead + "    container:\n"
+				what := "container (all keys present, credentials " + map[bool]string{false: "first", true: "last"}[credLast] + ")." + order[pi].name
+				if svc {
+					key = order[pi].svcKey
+					head = c12JobHead + "    services:\n      s:\n"
+					what = "service" + what[len("container"):]
+				}
+				out = append(out, c12Site{key, what, head + body.String() + c12Steps})
+			}
+		}
+	}
+	return out
+}
+
 func runC12(c *ctx, r *Report) error {
+	c12Sites = append(c12Sites, c12FullSites()...)
 	tbl, err := docsAvailability()
 	if err != nil {
 		return err
